@@ -689,7 +689,7 @@ __CPROVER_assigns(data, data_n, g_ob, g_od, g_nout)
         fn = Fn(L, r"void compute_persistence_of_function_on_line\(FiltrationRange const& input, OutputFunctor&& out, Compare&& lt = \{\}\)",
                 "line_persistence", con, sig_subs=[(r"\(FiltrationRange const& input, OutputFunctor&& out, Compare&& lt = \{\}\)", "(void)")],
                 calls={"out": "out_rec", "lt": "LT"}, subs=subs, dispatch=True,
-                canary=(r"if \(le\(v, DATA\(data_n - 2\)\)\)", "if (LT(v, DATA(data_n - 2)))"))
+                canary=(r"if \(ge\((\w+), DATA\(1\)\)\)", r"if (le(\1, DATA(1)))"))
         nm = f"line.whole.n{n}.{ty}.{'greater' if gr else 'less'}"
         U.append(Unit(nm, "C14", [fn], enforce="line_persistence", includes=["c14d_glue.h"],
                       defines=[f"NMAX={n}"] + (["FV_DOUBLE"] if ty == "double" else []) + (["CMP_GREATER"] if gr else []),
